@@ -33,6 +33,12 @@ func (r *Run) actorRanks() map[string]uint64 {
 				}
 			}
 		}
+		if t.Row != nil {
+			add(t.Row.ID().ActorID())
+			for k := range t.Row.ID().VersionVector() {
+				add(k)
+			}
+		}
 		if t.Resp != nil {
 			for _, c := range t.Resp.Changes {
 				add(c.ID().ActorID())
@@ -127,6 +133,13 @@ func (r *Run) ProtoCase() (string, bool) {
 				return "", false
 			}
 			evs = append(evs, coqfmt.App("PDeactivate", a))
+			continue
+		case "compact":
+			row := "None"
+			if t.Row != nil {
+				row = coqfmt.Some(chdrCoq(t.Row, ranks))
+			}
+			evs = append(evs, coqfmt.App("PCompact", coqfmt.Bool(t.Force), row, coqfmt.Bool(t.Err == nil)))
 			continue
 		}
 		if t.Req == nil {
